@@ -23,15 +23,15 @@ def bits32(x):
 def gen_history(rng, ids, n, with_disconnect):
     h = []
     long_ids = ids.keep_alive_long
-    bnd = ([0, 1, 127, 128, 2 ** 31 - 1, -1, -2 ** 63, 2 ** 63 - 1, 2 ** 32, 2 ** 56] if long_ids else [0, 1, 127, 128, 16383, 16384, 2 ** 21, 2 ** 28 - 1, 2 ** 28, 2 ** 31 - 1])
+    bnd = ([0, 1, 127, 128, 2 ** 31 - 1, -1, -2 ** 63, 2 ** 63 - 1, 2 ** 32, 2 ** 56] if long_ids else [0, 1, 127, 128, 16383, 16384, 2 ** 21, 2 ** 28 - 1, 2 ** 28, 2 ** 31 - 1, 2 ** 31, 2 ** 32 - 1])
     for _ in range(n):
         k = rng.random()
         if k < 0.45:
-            kid = rng.choice(bnd) if rng.random() < 0.5 else (rng.randrange(-2 ** 63, 2 ** 63) if long_ids else rng.randrange(2 ** 31))
+            kid = rng.choice(bnd) if rng.random() < 0.5 else (rng.randrange(-2 ** 63, 2 ** 63) if long_ids else rng.randrange(2 ** 32))      # servers send Java ints: the top bit may be set
             h.append(('ka', kid))
         elif k < 0.6:
             pos = (rng.randrange(-10 ** 6, 10 ** 6) / 8.0, rng.randrange(0, 256) / 2.0, rng.randrange(-10 ** 6, 10 ** 6) / 8.0, rng.randrange(0, 360 * 4) / 4.0, rng.randrange(-90 * 4, 90 * 4) / 4.0)
-            h.append(('pos', rng.randrange(2 ** 31), pos, rng.randrange(32)))
+            h.append(('pos', rng.choice([rng.randrange(2 ** 32), 2 ** 31, 2 ** 32 - 1, rng.randrange(128)]), pos, rng.randrange(32)))
         elif k < 0.85:
             h.append(('unk', ids.unknown_id(rng), bytes(rng.randrange(256) for _ in range(rng.choice([0, 1, 5, 40, 300])))))
         else:
@@ -151,7 +151,27 @@ def run(chk):
     fixed = {}
     for pv in sup:
         ids = proto.Ids(pv)
-        if sum(1 for c in cb.play.get_packets(ids.ctx) if c.get_id(ids.ctx) == ids.chat) > 1:
+        same = sorted(c.__name__ for c in cb.play.get_packets(ids.ctx) if c.get_id(ids.ctx) == ids.chat)
+        if len(same) > 1:
+            # which class the id -> decoder dict keeps depends on set iteration order (object addresses), so the session below
+            # fails on some runs only; the demonstration here does not depend on it: the other class cannot decode a chat frame
+            from minecraft.networking.packets import PacketBuffer
+            body = proto.string('{"text":"hello"}') + b'\x00'
+            for c in cb.play.get_packets(ids.ctx):
+                if c.get_id(ids.ctx) == ids.chat and c.__name__ != 'ChatMessagePacket':
+                    pb = PacketBuffer()
+                    pb.send(body)
+                    pb.reset_cursor()
+                    try:
+                        c(context=ids.ctx).read(pb)
+                        outcome = 'decodes it as %s with %d bytes left' % (c.__name__, len(pb.read()))
+                    except Exception as e:
+                        outcome = 'raises %s' % exn_name(e)
+                    chk.count('play', ['collision-probe', pv, c.__name__], True)
+                    chk.violation('play', 'collision:%d:clientbound.play:0x%02X:chat-frame-misdecoded' % (pv, ids.chat),
+                                  {'case': {'proto': pv, 'frame_body': body.hex(), 'decoder': c.__name__}, 'classes': same, 'observed': outcome},
+                                  'protocol %d: a chat message frame (id 0x%02X, shared by %s) handed to %s %s, which ends the networking thread' % (
+                                      pv, ids.chat, ' and '.join(same), c.__name__, outcome))
             plan.append((pv, 0, False, None, 'frame'))
             fixed[len(plan) - 1] = [('ka', 1), ('chat', '{"text":"hello"}'), ('ka', 2)]
     for k, (pv, n, disc, thr, chunking) in enumerate(plan):
